@@ -2,7 +2,7 @@
    Only ExtrOcamlBasic's directives are used; numbers stay as extracted inductives. *)
 Require Extraction.
 Require Import ExtrOcamlBasic.
-From RxModel Require Import Derived Ops2 Subject GroupBy Flatten Timed Async Subscr Finalize Fin Pipe Indep Share Convert.
+From RxModel Require Import Derived Ops2 Subject GroupBy Flatten Timed Async Subscr Finalize Fin Pipe Indep Share Convert Conc.
 From RxSpec Require Import DerivedSpec Ops2Spec SubjectSpec BehaviorSpec GroupBySpec FlattenSpec TimedSpec SubscrSpec FinalizeSpec.
 Extraction Language OCaml.
 Extraction "model.ml"
@@ -18,7 +18,8 @@ Extraction "model.ml"
   crun cstate0 alg_ok
   run_finalize_segs run_finalize_segs_from fin_ok fspec0 fspec1 rrun
   run_iter_case run_stream_case run_interval_case
-  exec idiom_log
+  Pipe.exec idiom_log
   run_share
+  next_prog subscribe_prog unsubscribe_prog complete_prog probe_cell shared_tail acquisitions
   run_future run_stream wrun waiter_safe w_flag
   sub_runs nested_run lscript factory_calls is_iter calls_after.
